@@ -40,6 +40,11 @@ def observe(doc, tmpdir):
     obs = {"exc": "none", "els": [], "pos": [], "res": "ok", "bonds": [], "same": "yes"}
     try:
         with contextlib.redirect_stderr(io.StringIO()), contextlib.redirect_stdout(io.StringIO()):
+            first = Atoms.load(path)
+            # the loaded object is the caller's: editing it in place must not change what a later load returns
+            first.translate([7.0, -3.0, 2.0])
+            if len(first) > 1:
+                del first[[0]]
             a = Atoms.load(path)
             with open(path) as fh:
                 b = Atoms.load(fh, filetype="cml")
